@@ -60,6 +60,15 @@ func main() {
 		fmt.Fprintf(os.Stderr, "unknown property %q; known: %v\n", *prop, runner.IDs())
 		os.Exit(3)
 	}
+	raceSelf := ""
+	if *prop == "C11" {
+		if _, err := os.Stat(self + "-race"); err == nil {
+			raceSelf = self + "-race"
+		} else {
+			fmt.Fprintf(os.Stderr, "C11: no race build at %s-race: the race-detector monitor cannot run\n", self)
+			os.Exit(2)
+		}
+	}
 	os.Exit(runner.Check(runner.Options{Prop: *prop, Tier: *tier, Seed: *seed, Workers: w, Self: self,
-		WorkDir: filepath.Join(*root, "work", *prop), Root: *root, Race: *race, Timeout: to2}))
+		WorkDir: filepath.Join(*root, "work", *prop), Root: *root, Race: *race, RaceSelf: raceSelf, Timeout: to2}))
 }
